@@ -10,7 +10,10 @@ Modelled code (statement by statement, AFTER the `repo_fixes/C10-*.diff` patches
                        identifier setter, `generateIdentifier`, `generateIdentifierForPoint`
   objects/component.py, anchor.py, guideline.py   identifier setter, `generateIdentifier`
   objects/font.py      guidelines, `identifiers`, `setDataFromSerialization` (guidelines)
-  objects/layer.py     `insertGlyph`, `reloadGlyphs`, `loadGlyph` (as far as identifiers go)
+  objects/layer.py     `insertGlyph` (same layer, another layer, another font), `reloadGlyphs`, `loadGlyph`
+                       (as far as identifiers go)
+  objects/glyph.py     `_fullyLoadShallowLoadedContours`, `__len__/__iter__/__getitem__/__contains__`,
+                       `_drawShallowLoadedContours`, `set_shallow_contours` (round 3)
   tools/identifiers.py `makeRandomIdentifier` (candidates are inputs; the retry loop is mirrored)
   pens/glyphObjectPointPen.py, decomposeComponentPointPen.py   incl. `skipConflictingIdentifiers`
   fontTools (ported)   `ReverseContourPointPen._flushContour`, the contour validity rules of
@@ -31,6 +34,13 @@ Refused calls (`rmAbsentPoint`, `rmAbsent`, `rmForeign`, `insAnchorBad`, `insGui
 assignments `setAnchorsBad` / `setGuidesBad` cut short by an invalid dict): the code raises before any
 identifier statement runs (`list.remove`, the membership guards, `Color()` ahead of the identifier in
 `Anchor/Guideline.__init__`); which stranger / which invalid colour is used is the harness's business.
+Round 3: lazily loaded ("shallow") contours.  A glyph read by `Layer.loadGlyph` (`reopen`) keeps its outline as
+recorded pen calls whose identifiers are reserved in the registry (`Glyph.shallow`; `contours` then are the
+records); `deepen` is `_fullyLoadShallowLoadedContours`; `preload` says which glyphs an operation looks at before
+anything else (and therefore loads), `penEnd` loads at the first `endPath` of a drawing, `deserialize` takes the
+records of a shallow source over (`reserve`) and leaves the target shallow; a shallow glyph that is only READ
+(`drawPoints` into another glyph's pen, `copyDataFromGlyph` / `Layer.insertGlyph` from it, decomposition of a
+component that references it, `getDataForSerialization`) stays shallow.  `step = stepL ∘ preload`.
 A re-opened font is modelled as read at once; the harness also leaves it unread until the first
 guideline call (lazy reading of fontinfo.plist), the differential run checks that this is equivalent.
 Domain restrictions shared with the harness (it does not call defcon there): `Contour.reverse`
@@ -90,6 +100,10 @@ structure Glyph where
   stG : List (Option Id) := []
   /-- identifiers registered by objects that were abandoned before insertion (F29) -/
   leaked : List Id := []
+  /-- `bool(self._shallowLoadedContours)` : the glyph was read from a GLIF (or fed the serialisation of such a
+  glyph) and nothing has looked at its contours yet; `contours` then are the recorded pen calls, no Contour /
+  Point object exists, and the identifiers of the records are *reserved* in `reg` -/
+  shallow : Bool := false
 deriving DecidableEq, Repr, Inhabited
 
 /-! ### small list helpers (Python list semantics) -/
@@ -126,6 +140,16 @@ def discardOpt (r : List Id) : Option Id → List Id
 def regRemoveAll : List Id → List Id → List Id × Bool
   | r, [] => (r, true)
   | r, x :: xs => if x ∈ r then regRemoveAll (r.erase x) xs else (r, false)
+
+/-- `identifiers.discard(x)` for each `x` in turn -/
+def discardAll (r : List Id) (xs : List Id) : List Id := xs.foldl (fun r x => r.erase x) r
+
+/-- `assert x not in identifiers; identifiers.add(x)` for each `x` in turn (`set_shallow_contours` of
+`Glyph.setDataFromSerialization`): the registry, the identifiers reserved so far, and whether every
+assertion held -/
+def reserve (r : List Id) (done : List Id) : List Id → List Id × List Id × Bool
+  | [] => (r, done, true)
+  | x :: xs => if x ∈ r then (r, done, false) else reserve (regAdd r x) (done ++ [x]) xs
 
 def optIds (v : Option Id) : List Id := v.toList
 
@@ -553,6 +577,54 @@ def clearContours : Nat → Glyph → Glyph × Res × List Contour
       (r.1, r.2.1, c :: r.2.2)
     | (g1, res, _) => (g1, res, [])
 
+/-! ### lazily loaded ("shallow") contours
+
+`Layer.loadGlyph` reads a GLIF with a `GlyphObjectLoadingPointPen`: the outline is kept as the recorded pen calls
+(`Glyph._shallowLoadedContours`), the identifiers of the records are *reserved* in `glyph.identifiers`.  Every read
+access to the contours (`len`, iteration, indexing, `in`, `contourIndex`) first runs
+`Glyph._fullyLoadShallowLoadedContours` (`deepen`): the reservations are discarded one by one, then the records are
+drawn through an ordinary `GlyphObjectPointPen`, whose contours and points register the identifiers again
+(`Contour.identifier = ...` and `Contour.insertPoint` assert that the identifier is free).  An assertion that fails
+there would leave through the read access; `deepen_never_rejects` (Lemmas/Ident) proves that this cannot
+happen in a container that satisfies the invariant, so that branch is modelled as "the records are kept". -/
+
+/-- the deepening pen's `addPoint` calls for one record; `none` = the assertion of `Contour.insertPoint` -/
+def loadPoints (reg : List Id) (acc : List Point) : List Point → Option (List Id × List Point)
+  | [] => some (reg, acc)
+  | p :: ps =>
+    match p.id with
+    | none => loadPoints reg (acc ++ [p]) ps
+    | some x => if x ∈ reg then none else loadPoints (regAdd reg x) (acc ++ [p]) ps
+
+/-- `beginPath(identifier)`, `addPoint`*, `endPath` for one record -/
+def loadContour (reg : List Id) (c : Contour) : Option (List Id × Contour) :=
+  match c.id with
+  | none =>
+    match loadPoints reg [] c.pts with
+    | none => none
+    | some r => some (r.1, { id := none, pts := r.2 })
+  | some x =>
+    if x ∈ reg then none                                   -- the identifier setter's assertion
+    else
+      match loadPoints (regAdd reg x) [] c.pts with
+      | none => none
+      | some r => some (r.1, { id := some x, pts := r.2 })
+
+def loadContours (reg : List Id) (acc : List Contour) : List Contour → Option (List Id × List Contour)
+  | [] => some (reg, acc)
+  | c :: cs =>
+    match loadContour reg c with
+    | none => none
+    | some r => loadContours r.1 (acc ++ [r.2]) cs
+
+/-- `Glyph._fullyLoadShallowLoadedContours()` -/
+def deepen (g : Glyph) : Glyph :=
+  if g.shallow then
+    match loadContours (discardAll g.reg (g.contours.flatMap Contour.ids)) [] g.contours with
+    | some r => { g with shallow := false, contours := r.2, reg := r.1 }
+    | none => { g with shallow := false }
+  else g
+
 /-- insertion of a detached Component / Anchor / Guideline with identifier `v` : the new registry -/
 def claimOpt (reg : List Id) (v : Option Id) : Option (List Id) :=
   match v with
@@ -742,11 +814,14 @@ def penPoint (g : Glyph) (p : Point) (skip : Bool) : Glyph × Bool :=
         else (g, false)                                      -- insertPoint's assertion
       else ({ g with cur := some { c with pts := c.pts ++ [p] }, reg := regAdd g.reg x }, true)
 
-/-- `GlyphObjectPointPen.endPath()` : `appendContour` of a contour that already belongs to the glyph -/
+/-- `GlyphObjectPointPen.endPath()` : `appendContour` of a contour that already belongs to the glyph;
+`appendContour` asks for `len(self)` first, which fully loads contours that are still shallow -/
 def penEnd (g : Glyph) : Glyph × Bool :=
   match g.cur with
   | none => (g, false)
-  | some c => ({ g with contours := g.contours ++ [c], cur := none }, true)
+  | some c =>
+    let g' := deepen g
+    ({ g' with contours := g'.contours ++ [c], cur := none }, true)
 
 def penPoints (skip : Bool) : Glyph → List Point → Glyph × Bool
   | g, [] => (g, true)
@@ -917,31 +992,44 @@ def copyFrom (g src : Glyph) : Glyph × Res × Removed :=
         | res => (b.1, res, { guides := a.2.2, anchors := b.2.2 })
     | res => (a.1, res, { guides := a.2.2 })
 
-/-- `Glyph.setDataFromSerialization(src.getDataForSerialization())` -/
+/-- `Glyph.setDataFromSerialization`, after the outline: components, guidelines, anchors -/
+def deserializeTail (g1 src : Glyph) (rm : Removed) : Glyph × Res × Removed :=
+  match stageAll stageComp g1 src.comps with
+  | (g2, false) => (abandon g2, .err .assertion, rm)
+  | (g2, true) =>
+    let g2 := { g2 with comps := g2.comps ++ g2.stK, stK := [] }
+    match stageAll stageGuide g2 src.guides with
+    | (g3, false) => (abandon g3, .err .assertion, rm)
+    | (g3, true) =>
+      let a := commitGuides g3
+      match a.2.1 with
+      | .ok =>
+        match stageAll stageAnchor a.1 src.anchors with
+        | (g4, false) => (abandon g4, .err .assertion, rm)
+        | (g4, true) =>
+          let b := commitAnchors g4
+          (b.1, b.2.1, rm)
+      | res => (a.1, res, rm)
+
+/-- `Glyph.setDataFromSerialization(src.getDataForSerialization())`.  `clear()` comes first (it loads contours
+that are still shallow, then removes them).  A source whose contours are still shallow serialises them as the
+records they are (key `_shallowLoadedContours`): the glyph takes the records over, reserving their identifiers one
+by one (`set_shallow_contours`), and is shallow itself afterwards; a reservation that fails leaves the identifiers
+reserved before it registered, for records the glyph never gets (F29 family).  Otherwise the contours are
+instantiated and appended. -/
 def deserialize (g src : Glyph) : Glyph × Res × Removed :=
-  let c := clearGlyph g
+  let c := clearGlyph (deepen g)
   match c.2.1 with
   | .ok =>
-    match stageAll stageContour c.1 src.contours with
-    | (g1, false) => (abandon g1, .err .assertion, c.2.2)
-    | (g1, true) =>
-      let g1 := { g1 with contours := g1.contours ++ g1.stC, stC := [] }
-      match stageAll stageComp g1 src.comps with
-      | (g2, false) => (abandon g2, .err .assertion, c.2.2)
-      | (g2, true) =>
-        let g2 := { g2 with comps := g2.comps ++ g2.stK, stK := [] }
-        match stageAll stageGuide g2 src.guides with
-        | (g3, false) => (abandon g3, .err .assertion, c.2.2)
-        | (g3, true) =>
-          let a := commitGuides g3
-          match a.2.1 with
-          | .ok =>
-            match stageAll stageAnchor a.1 src.anchors with
-            | (g4, false) => (abandon g4, .err .assertion, c.2.2)
-            | (g4, true) =>
-              let b := commitAnchors g4
-              (b.1, b.2.1, c.2.2)
-          | res => (a.1, res, c.2.2)
+    if src.shallow then
+      match reserve c.1.reg [] (src.contours.flatMap Contour.ids) with
+      | (r, done, false) => ({ c.1 with reg := r, leaked := c.1.leaked ++ done }, .err .assertion, c.2.2)
+      | (r, _, true) =>
+        deserializeTail { c.1 with reg := r, contours := c.1.contours ++ src.contours, shallow := true } src c.2.2
+    else
+      match stageAll stageContour c.1 src.contours with
+      | (g1, false) => (abandon g1, .err .assertion, c.2.2)
+      | (g1, true) => deserializeTail { g1 with contours := g1.contours ++ g1.stC, stC := [] } src c.2.2
   | res => (c.1, res, c.2.2)
 
 /-- `Font.setDataFromSerialization(dict(guidelines=...))` (patched): clear, instantiate, assign -/
@@ -978,7 +1066,12 @@ def readInto (g : Glyph) (d : Data) : Glyph × Res × Removed :=
     | res => (a.1, res, { guides := a.2.2 })
   | res => (o.1, res, {})
 
-/-- `Layer.reloadGlyphs([name])` after the file was replaced -/
+/-- `Layer.loadGlyph(name)` : the glyph is read with the loading pen, its contours stay shallow (an empty list of
+records counts as "nothing to load") -/
+def markShallow (g : Glyph) : Glyph := { g with shallow := !g.contours.isEmpty }
+
+/-- `Layer.reloadGlyphs([name])` after the file was replaced (the glyph object exists: `clear()`, then an ordinary
+pen; `step` loads shallow contours first, as `clear()` does) -/
 def reload (g : Glyph) (d : Data) : Glyph × Res × Removed :=
   let c := clearGlyph g
   match c.2.1 with
@@ -1096,6 +1189,10 @@ inductive Op where
   | insGuideBad (t r : Nat) (v : Option Id)
   | setAnchorsBad (t : Nat) (vs : List (Option Id))
   | setGuidesBad (t : Nat) (vs : List (Option Id))
+  /- round 3: a read access to the contours of glyph `t` (`len(glyph)`), and `Layer.insertGlyph` of glyph `src`
+     into a layer of ANOTHER font, the copy made there being inserted back as glyph `t` -/
+  | load (t : Nat)
+  | insertGlyphVia (t src : Nat)
 deriving Repr
 
 def World.get (w : World) (t : Nat) : Glyph := w.conts[t]?.getD {}
@@ -1120,7 +1217,31 @@ def detachedGen (cur : Option Id) (cands : List Id) : Except Err (Option Id) :=
     | .error e => .error e
     | .ok x => .ok (some x)
 
-def step (w : World) : Op → World × Res
+/-- the contours of glyph `t` are looked at: contours that are still shallow are fully loaded -/
+def World.load (w : World) (t : Nat) : World := w.put t (deepen (w.get t))
+
+/-- What an operation does BEFORE anything else: the glyphs whose contours it looks at first (`len`, iteration,
+indexing, `in`) are fully loaded.  `insertContour` / `appendContour` (`assert contour not in self`, `len(self)`),
+`removeContour` (`contour not in self`), `clearContours` / `clear` / `Layer.reloadGlyphs` (`reversed(self)`),
+`_decomposeComponent` (explicitly) look themselves; an operation that names a contour by its index looks when it
+fetches that contour (glue shared with the harness, like `pick`).  Operations that return before they look
+(an empty limbo, no component to decompose) load nothing. -/
+def preload (w : World) : Op → World
+  | .insContour t _ _ | .rmContour t _ | .clearContours t | .insPoint t _ _ _ | .addPoint t _ _ | .rmPoint t _ _
+  | .clearContour t _ | .reverse t _ | .rmSegment t _ _ _ | .split t _ _ | .setStart t _ _ | .setContourId t _ _
+  | .genContourId t _ _ | .genPointId t _ _ _ | .clearGlyph t | .reload t _ | .rmAbsentPoint t _ | .load t =>
+    w.load t
+  | .reinsContour t _ _ => if w.limboC = [] then w else w.load t
+  | .decompose t _ | .decomposeAll t => if (w.get t).comps = [] then w else w.load t
+  | .rmAbsent 0 t _ => if w.limboC = [] then w else w.load t
+  | .rmForeign 0 t src _ =>
+    -- the stranger is fetched from glyph `src` (a read access), then handed to glyph `t`
+    if t = src then w
+    else if ((w.load src).get src).contours = [] then w.load src else (w.load src).load t
+  | _ => w
+
+/-- an operation on a world whose glyphs it looks at first are loaded (`step` = `preload`, then this) -/
+def stepL (w : World) : Op → World × Res
   | .insContour t r c =>
     let g := w.get t
     w.on t fun g' => insertContour g' (r % (g.contours.length + 1)) c
@@ -1459,7 +1580,7 @@ def step (w : World) : Op → World × Res
     let r1 := readInto {} (ds[1]?.getD {})
     let r2 := readInto {} (ds[2]?.getD {})
     let rf := appendGuideDicts {} fg
-    let w1 := { w with conts := [r0.1, r1.1, r2.1, rf.1] }
+    let w1 := { w with conts := [markShallow r0.1, markShallow r1.1, markShallow r2.1, rf.1] }
     -- files with a repeated identifier: outside the domain (glifLib refuses to write or read them)
     if r0.2.1 ≠ .ok ∨ r1.2.1 ≠ .ok ∨ r2.2.1 ≠ .ok ∨ rf.2 ≠ .ok then (w1, .err .assertion)
     else
@@ -1528,6 +1649,20 @@ def step (w : World) : Op → World × Res
      match r.2.1 with
      | .ok => .err .value
      | res => res)
+  | .load _ => (w, .ok)
+  /- `otherFont.layers.defaultLayer.insertGlyph(src)` makes a copy in the other font (`newGlyph` +
+     `copyDataFromGlyph`: a source that is still shallow is drawn from its records and stays shallow); that copy
+     is then inserted into the home layer under the name of glyph `t`.  A first copy that fails leaves the home
+     layer alone. -/
+  | .insertGlyphVia t src =>
+    let r1 := copyFrom {} (w.get src)
+    match r1.2.1 with
+    | .ok =>
+      let r := copyFrom {} r1.1
+      (w.put t r.1, r.2.1)
+    | res => (w, res)
+
+def step (w : World) (op : Op) : World × Res := stepL (preload w op) op
 
 def run (w : World) : List Op → World
   | [] => w
